@@ -28,4 +28,7 @@ def run(prog, tier):
     CR.label_binding_rule(prog, res)
     CR.load_order_rule(prog, res)
     CR.copy_completeness_rule(prog, res)
+    # strings are stored trimmed: the trimmer must empty a cell made only of padding
+    import p_c11
+    p_c11.check_trimmer(prog, res, 'string-trim')
     return res
